@@ -158,6 +158,40 @@ def onOpened (w : World) (aw : AddrWorld) (toks : List String) : World × AddrWo
         | none => w
       (w, aw)
 
+/-- `openaddr q <address string>`: an address given by the user (roots written `@rN@`), through the
+`Open` model; and on the implementation alone: the address the store prints must name the database
+whose manifest (type, write list) the store was opened with -/
+def onOpenedAddr (w : World) (aw : AddrWorld) (toks : List String) : World × AddrWorld :=
+  let q := peerNum (toks.getD 1 "")
+  let addr := unhex (w.pending.getD 2 "")
+  let localonly := w.pending.getD 3 "" == "localonly"
+  let st0 := aw.ocState q
+  let (mres, st1) := OC.openDB isCidTok aw.H st0 addr localonly false "" false
+  let aw := aw.ocPut q st1
+  let implErr := toks.getD 2 "" == "err"
+  let w := match mres with
+    | .ok (a, ty, mwl) =>
+      if implErr then w.fail "corr" "open" s!"peer {q}: model opens '{addr}' as {a.root}, implementation refuses"
+      else if a.root != s!"@{arg toks "root"}@" || ty != arg toks "type" || sortedAcl mwl != arg toks "write" then
+        w.fail "corr" "open" s!"peer {q}: '{addr}': model opens {a.root} as {ty} writable by {sortedAcl mwl}, implementation {arg toks "root"} as {arg toks "type"} writable by {arg toks "write"}"
+      else w
+    | .error e =>
+      if !implErr then w.fail "corr" "open" s!"peer {q}: model refuses to open '{addr}' ({repr e}), implementation opens {arg toks "root"}" else w
+  if implErr then (w, aw) else
+  -- C14: the printed address names the root the store carries, and that database's type and write list
+  let str := unhex (arg toks "str")
+  let w := match parse0 isCidTok str with
+    | some b =>
+      if b.root != s!"@{arg toks "root"}@" then
+        w.fail "C14" "open" s!"peer {q}: opening '{addr}' gives a store that prints its address as '{str}' but carries the manifest of {arg toks "root"}" else w
+    | none => w.fail "C14" "open" s!"peer {q}: opening '{addr}' gives a store whose printed address '{str}' is not an address"
+  let w := match aw.info.find? (·.1 == arg toks "root") with
+    | some (_, ty, wl) =>
+      let w := if arg toks "type" != ty then w.fail "C14" "type" s!"opening '{addr}' gives type {arg toks "type"}, {arg toks "root"} was created as {ty}" else w
+      if arg toks "write" != wl then w.fail "C14" "acl" s!"opening '{addr}' gives write list {arg toks "write"}, {arg toks "root"} was created with {wl}" else w
+    | none => w
+  (w, aw)
+
 def onParsed (w : World) (aw : AddrWorld) (toks : List String) : World × AddrWorld :=
   match aw.last with
   | none => (w, aw)
@@ -423,6 +457,7 @@ def Full.step (f : Full) (line : String) : Full :=
   | "created" => let (w, aw) := onCreated (bump f.w) f.aw toks; { f with w := w, aw := aw }
   | "opened" =>
     if (arg? toks "db").isSome then { f with w := f.w.stepAll line }
+    else if f.w.pending.headD "" == "openaddr" then let (w, aw) := onOpenedAddr (bump f.w) f.aw toks; { f with w := w, aw := aw }
     else let (w, aw) := onOpened (bump f.w) f.aw toks; { f with w := w, aw := aw }
   | "parsed" => let (w, aw) := onParsed (bump f.w) f.aw toks; { f with w := w, aw := aw }
   | "joined" => { f with w := onJoined (bump f.w) toks }
